@@ -138,7 +138,11 @@ func (E *Engine) call(fr *Frame, st *State, cc *ssa.CallCommon, instr ssa.Instru
 		if cl, ok := E.closureByRef[c]; ok {
 			return E.callFn(fr, st, cl.fn, args, cl.bind, instr)
 		}
-		return E.unknownCall(fr, st, "call through function value "+cc.Value.Name()+" in "+shortFn(fr.fn), cc.Signature().Results(), instr, args)
+		if E.pureFns[c] {
+			E.note("function-typed parameters of a //verif:pure-func-params contract are pure functions of their arguments")
+			return E.pureResult(fr, st, "apply$"+sanitize(cc.Signature().String()), cc.Signature().Results(), append([]Val{c}, args...), nil)
+		}
+		return E.unknownCall(fr, st, "call through function value "+cc.Value.Name()+" in "+shortFn(fr.fn)+" ("+E.tb.Show(c)+")", cc.Signature().Results(), instr, args)
 	}
 	E.fail("call through %T", x)
 	return nil
@@ -613,6 +617,23 @@ func (E *Engine) useContract(fr *Frame, st *State, h *Harness, fn *ssa.Function,
 		otp := originOf(fn).TypeParams()
 		for i := 0; i < tps.Len() && otp != nil && i < otp.Len(); i++ {
 			tenv[tps.At(i)] = E.subst(otp.At(i), fr.tenv)
+		}
+	}
+	if h.PureFuncParams {
+		// the contract was proved for pure function arguments: the closure handed over must be one
+		for _, a := range args {
+			if c, ok := a.(*Closure); ok {
+				w := E.writes(c.fn, nil)
+				impure := w.all
+				for k, kw := range w.keys {
+					if k != allocKey && (kw.any || len(kw.bases) > 0) {
+						impure = true
+					}
+				}
+				if impure {
+					E.fail("contract %s requires a pure function argument, %s writes memory", h.Name, c.fn)
+				}
+			}
 		}
 	}
 	hf := E.newFrame(hbody, fr, tenv)
